@@ -315,7 +315,8 @@ QAttrOf(a) == [atoms |-> IF Has(a, "atoms") THEN SeqSet(a.atoms) ELSE {}, acl |-
 TabKey(tab) == [i \in 1..Len(tab) |-> <<tab[i].st, tab[i].pay, tab[i].emb>>]
 Cut(a) == Has(a, "as_of_frame") \/ Has(a, "as_of_ts")
 Enforce(a) == Has(a, "mode") /\ a.mode = "enforce"
-NeedTenant(a) == Enforce(a) /\ (~Has(a, "ctx") \/ ~Has(a.ctx, "tenant"))
+\* a tenant id that is blank after normalisation (also a JSON-quoted blank) is no tenant
+NeedTenant(a) == Enforce(a) /\ (~Has(a, "ctx") \/ ~Has(a.ctx, "tenant") \/ (Has(a.ctx, "blank") /\ a.ctx.blank))
 Dev(nm) == PrintT(<<"DEVIATION", l, nm>>)
 
 TSearch ==
